@@ -28,4 +28,4 @@ def run(tier, seed):
     from bounded.core import attach
     attach(ctx, tb.run((PID,), tier, seed))
     from runner.core import companion_replayer
-    return finish(ctx, LEVEL, replayers=[(r'(reconstruct|check_strings|add_failures|write_file|check_binary_file)', companion_replayer(ctx, ('C15.',)))])
+    return finish(ctx, LEVEL, replayers=[(r'(reconstruct|check_strings|add_failures|write_file|check_binary_file|wrong_number|wrong_content|can_ignore)', companion_replayer(ctx, ('C15.',)))])
